@@ -24,7 +24,7 @@ func init() {
 		Explanation: "Decides the request-threading dataflow of the function pipeline as SSA shapes: (R4.1) Observed is defined once outside the loop from AsState(xr, xr connection details, observed); Desired and Context of each request are the loop-carried values whose only definitions are a fresh empty value before the loop and GetDesired()/GetContext() of this iteration's RunFunction response (no self-carry of an older value), and the state read after the loop is that same carried value; " +
 			"(R4.2) function name, input and credentials of a step derive from the same pipeline element; (R4.3) every condition and every non-fatal result is appended (no skip, no early exit) to the slices returned on both the success and the fatal return, and the reconciler surfaces all of them; " +
 			"(R4.4) each requirements round re-creates ExtraResources, fills it only from Fetch of the selectors of the response just received, forwards GetContext(), and re-sends the same request object; (R4.5) the v1 and v1beta1 protobuf message closures have identical field numbers, wire types, names, oneofs and enum values, so the marshal/unmarshal fallback is lossless; " +
-			"(R4.6) a cached connection is returned only when its target equals the active revision's endpoint, the active revision is chosen by DesiredState==Active, a stale connection is closed and forgotten before a new one is stored, the connection GC closes exactly the names absent from the listed Functions, all under connsMx. (R4.7) the connection details of an observed resource are read from exactly the namespace/name its writeConnectionSecretToRef gives. R4.2 also requires that the loop over a step's credentials is left early only with an error. (R4.8) the observer reads each referenced composed resource by the namespace and name of its reference.",
+			"(R4.6) a cached connection is returned only when its target equals the active revision's endpoint, the active revision is chosen by DesiredState==Active, a stale connection is closed and forgotten before a new one is stored, the connection GC closes exactly the names absent from the listed Functions, all under connsMx. (R4.7) the connection details of an observed resource are read from exactly the namespace/name its writeConnectionSecretToRef gives. R4.2 also requires that the loop over a step's credentials is left early only with an error. (R4.8) the observer reads each referenced composed resource by the namespace and name of its reference. R4.4 also requires that the context is refreshed on every way into the next requirements round.",
 		NotDecided:  []string{"label/name matching semantics of the extra-resource fetcher", "what a function does with the request", "gRPC delivery", "equality of the marshalled bytes (only schema identity is decided)"},
 		Assumptions: []string{"protobuf marshal/unmarshal of schema-identical messages is lossless", "generated Get* accessors return the field"},
 	})
